@@ -28,25 +28,48 @@ func c09Index(mids []string, m string) int {
 	return -1
 }
 
+// a description that becomes applied must itself be consistent with the ones
+// applied before (shared mids at the same index, none of their mids missing):
+// otherwise the remote is not a JSEP peer, or the application applied an offer
+// created before a later exchange (pion keeps pc.lastOffer across exchanges and
+// accepts it; C01/C03 territory). From then on the history is outside C09's
+// quantifier and only clause (1) is checked.
+func c09Consistent(applied []c09Applied, a c09Applied) bool {
+	for _, b := range applied {
+		for j, m := range b.mids {
+			if m == "" {
+				continue
+			}
+			if i := c09Index(a.mids, m); i != j {
+				return false
+			}
+		}
+	}
+	return true
+}
+
 // oracle over one peer's log; returns the first failure (signature, text)
-func c09Peer(entries []jEntry) (sig, what string, compared int) {
+func c09Peer(entries []jEntry) (sig, what string, compared int, outside bool) {
 	var applied []c09Applied
 	lastCreated := map[string]*lDesc{}
 	for k := range entries {
 		e := &entries[k]
 		// (1) mids and kinds of existing transceivers never change; the list only grows
 		if len(e.Trs) < len(e.Before) {
-			return "transceiver-removed", fmt.Sprintf("call %d (%s): %d transceivers before, %d after", k, e.Op.Op, len(e.Before), len(e.Trs)), compared
+			return "transceiver-removed", fmt.Sprintf("call %d (%s): %d transceivers before, %d after", k, e.Op.Op, len(e.Before), len(e.Trs)), compared, outside
 		}
 		for i, b := range e.Before {
 			if b.Mid != "" && e.Trs[i].Mid != b.Mid {
-				return "transceiver-mid-changed", fmt.Sprintf("call %d (%s): transceiver %d mid %q -> %q", k, e.Op.Op, i, b.Mid, e.Trs[i].Mid), compared
+				return "transceiver-mid-changed", fmt.Sprintf("call %d (%s): transceiver %d mid %q -> %q", k, e.Op.Op, i, b.Mid, e.Trs[i].Mid), compared, outside
 			}
 			if b.Kind != e.Trs[i].Kind {
-				return "transceiver-kind-changed", fmt.Sprintf("call %d (%s): transceiver %d", k, e.Op.Op, i), compared
+				return "transceiver-kind-changed", fmt.Sprintf("call %d (%s): transceiver %d", k, e.Op.Op, i), compared, outside
 			}
 		}
-		if e.Local != nil && e.Status == "ok" {
+		if e.Local != nil && e.Status == "ok" && outside {
+			lastCreated[e.Op.Op] = e.Local
+		}
+		if e.Local != nil && e.Status == "ok" && !outside {
 			d := e.Local
 			mids := make([]string, len(d.Secs))
 			for i, s := range d.Secs {
@@ -63,7 +86,7 @@ func c09Peer(entries []jEntry) (sig, what string, compared int) {
 					}
 					for j, u := range e.Trs {
 						if j != i && u.Mid == t.Mid {
-							return "fresh-mid-equals-existing-transceiver-mid", fmt.Sprintf("call %d: CreateOffer gave transceiver %d the mid %q of transceiver %d", k, i, t.Mid, j), compared
+							return "fresh-mid-equals-existing-transceiver-mid", fmt.Sprintf("call %d: CreateOffer gave transceiver %d the mid %q of transceiver %d", k, i, t.Mid, j), compared, outside
 						}
 					}
 					for _, a := range applied {
@@ -78,7 +101,7 @@ func c09Peer(entries []jEntry) (sig, what string, compared int) {
 								// CreateOffer scans the current remote description only
 								cause = "fresh-mid-equals-pending-remote-mid"
 							}
-							return cause, fmt.Sprintf("call %d: fresh mid %q already in an earlier %s %v", k, t.Mid, a.what, a.mids), compared
+							return cause, fmt.Sprintf("call %d: fresh mid %q already in an earlier %s %v", k, t.Mid, a.what, a.mids), compared, outside
 						}
 					}
 				}
@@ -92,7 +115,7 @@ func c09Peer(entries []jEntry) (sig, what string, compared int) {
 					if !known {
 						for _, a := range applied {
 							if i := c09Index(a.mids, dm); i >= 0 && !a.app[i] {
-								return "data-mid-equals-existing-mid", fmt.Sprintf("call %d: appended data section takes mid %q, which an earlier %s uses for another section %v", k, dm, a.what, a.mids), compared
+								return "data-mid-equals-existing-mid", fmt.Sprintf("call %d: appended data section takes mid %q, which an earlier %s uses for another section %v", k, dm, a.what, a.mids), compared, outside
 							}
 						}
 					}
@@ -124,7 +147,7 @@ func c09Peer(entries []jEntry) (sig, what string, compared int) {
 						case c09HasDup(mids):
 							cause = "position-shifted-by-duplicate-mid"
 						}
-						return cause, fmt.Sprintf("call %d (%s): mid %q at index %d of %v, but at index %d of an earlier %s %v", k, e.Op.Op, m, i, mids, j, a.what, a.mids), compared
+						return cause, fmt.Sprintf("call %d (%s): mid %q at index %d of %v, but at index %d of an earlier %s %v", k, e.Op.Op, m, i, mids, j, a.what, a.mids), compared, outside
 					}
 				}
 			}
@@ -148,6 +171,7 @@ func c09Peer(entries []jEntry) (sig, what string, compared int) {
 						a.mids = append(a.mids, m)
 						a.app = append(a.app, s.Kind == "application")
 					}
+					outside = outside || !c09Consistent(applied, a)
 					applied = append(applied, a)
 				}
 			case "srd", "srdext", "srdmirror", "srdpeer":
@@ -156,11 +180,12 @@ func c09Peer(entries []jEntry) (sig, what string, compared int) {
 					a.mids = append(a.mids, s.Mid)
 					a.app = append(a.app, s.Kind == "application")
 				}
+				outside = outside || !c09Consistent(applied, a)
 				applied = append(applied, a)
 			}
 		}
 	}
-	return "", "", compared
+	return "", "", compared, outside
 }
 
 func c09Unusable(secs []jSec) bool {
@@ -189,14 +214,16 @@ func c09Run(c jCase) (V, Verdict) {
 	jCoqCache.Store(jKey(c), jsepCoq(log))
 	v := Pass("", false)
 	total, descs := 0, 0
+	outside := false
 	for pi := range log.Peers {
 		for k := range log.Peers[pi] {
 			if log.Peers[pi][k].Local != nil {
 				descs++
 			}
 		}
-		sig, what, n := c09Peer(log.Peers[pi])
+		sig, what, n, out := c09Peer(log.Peers[pi])
 		total += n
+		outside = outside || out
 		if sig != "" && v.OK {
 			v = Fail(sig, fmt.Sprintf("peer %d %s", pi, what))
 		}
@@ -204,6 +231,9 @@ func c09Run(c jCase) (V, Verdict) {
 	if v.OK {
 		v.NonTrivial = descs >= 2 && total >= 2
 		v.Class = fmt.Sprintf("peers%d/descs%d/compared%d", c.Peers, min(descs, 5), min(total/4*4, 16))
+		if outside {
+			v.Class += "/inconsistent-description-applied"
+		}
 	}
 	return log.V(), v
 }
@@ -247,7 +277,7 @@ func init() {
 	Register(Spec[jCase]{
 		ID: "C09", Suite: "pair", CoqImports: imports,
 		CoqType: "list (list op)", CoqRun: jRunName("C09"),
-		Quick: 160, Thorough: 8000, Parallel: 8,
+		Quick: 160, Thorough: 2000, Parallel: 8,
 		Corpus: c09Corpus,
 		Gen: func(r *Rand, i int) jCase {
 			if i%3 == 0 {
@@ -260,7 +290,7 @@ func init() {
 	Register(Spec[jCase]{
 		ID: "C09", Suite: "synth", CoqImports: imports,
 		CoqType: "list (list op)", CoqRun: jRunName("C09"),
-		Quick: 220, Thorough: 12000, Parallel: 8,
+		Quick: 220, Thorough: 3000, Parallel: 8,
 		Gen: func(r *Rand, i int) jCase {
 			if i%3 == 0 {
 				return jGenSynth(r, 0)
@@ -272,7 +302,7 @@ func init() {
 	Register(Spec[jCase]{
 		ID: "C09", Suite: "hostile", CoqImports: imports,
 		CoqType: "list (list op)", CoqRun: jRunName("C09"),
-		Quick: 100, Thorough: 5000, Parallel: 8,
+		Quick: 100, Thorough: 1200, Parallel: 8,
 		Gen: func(r *Rand, i int) jCase { return jGenSynth(r, 30) },
 		Run: c09Run, Coq: jCoqOf, Shrink: jShrink,
 	})
